@@ -47,7 +47,7 @@ def used_decision_variable_ids():
                 sig='pub fn used_decision_variable_ids(&self) -> BTreeSet<u64>',
                 header='''pub fn used_decision_variable_ids(&self) -> (r: BTreeSet<u64>)
         ensures r@ =~= inst_used(*self),''',
-                rsubs=[(r'used_ids\.extend\((c\.function\(\)\.used_decision_variable_ids\(\))\);', r'btreeset_extend(&mut used_ids, \1);', 2)],
+                rsubs=[(r'used_ids\.extend\((c\.function\(\)\.used_decision_variable_ids\(\))\);', r'btreeset_extend(&mut used_ids, \1);', None)],
                 loops=[dict(kind='for', it='it_1', inv='''invariant used_ids@ =~= fn_used(ofun(*self)).union(cs_used(self.constraints@, it_1.index@ as int)),'''),
                        dict(kind='for', it='it_2', inv='''invariant used_ids@ =~= fn_used(ofun(*self)).union(cs_used(self.constraints@, self.constraints.len() as int)).union(rcs_used(self.removed_constraints@, it_2.index@ as int)),''')])
 
@@ -113,7 +113,7 @@ def p_used_ids():
     return Unit('ParametricInstance::used_ids', P, 'used_ids', impl=PI, wrap=PW, sig='pub fn used_ids(&self) -> Result<BTreeSet<u64>>',
                 header='''pub fn used_ids(&self) -> (r: Result<BTreeSet<u64>, VErr>)
         ensures r is Ok, r->Ok_0@ =~= pinst_used(*self),''',
-                rsubs=[(r'used_ids\.extend\((c\.function\(\)\.used_decision_variable_ids\(\))\);', r'btreeset_extend(&mut used_ids, \1);', 1)],
+                rsubs=[(r'used_ids\.extend\((c\.function\(\)\.used_decision_variable_ids\(\))\);', r'btreeset_extend(&mut used_ids, \1);', None)],
                 loops=[dict(kind='for', it='it_1', inv='''invariant used_ids@ =~= fn_used(pfun(*self)).union(cs_used(self.constraints@, it_1.index@ as int)),''')])
 
 
